@@ -892,6 +892,125 @@ def _popcount_ev(t, env):
     return ev(t, env)
 
 
+def successors_walk(ctx, rule, name, what, outs, bl, entry, val_fn, masks):
+    """The same decision for a fill loop spelled `for b in std::iter::successors(Some(first), step) { body(b) }` (possibly behind a helper
+    returning `impl Iterator`): the sequence is first, step(first), step(step(first)), ... up to the first `None`.  `step` is summarised from
+    the closure's own paths (value and conditions as terms over its argument and its captured mask) and the sequence is evaluated for
+    every mask of this build: the values at which the body runs must be exactly the power set of the mask."""
+    facts = ctx.facts
+    nxt = strip_refs_t(bl)[1]                        # the `next()` call whose payload is the blocker set
+    itl = nxt[2][0][1]                               # ('L', fid, local): the iterator the loop drives
+    head = src = None
+    for o in outs:
+        for e in o.events:
+            if e[0] == 'loop_head' and not isinstance(e[2], tuple) and itl[2] in e[3]:
+                head, src = e, e[3][itl[2]]
+    while src is not None and src[0] == 'call' and src[1].endswith('into_iter') and len(src[2]) == 1:
+        src = src[2][0]
+    if head is None or src is None or src[0] != 'call' or not src[1].endswith('iter::successors') or len(src[2]) != 2 \
+            or src[2][1][0] != 'agg' or src[2][1][1] != 'closure':
+        ctx.ob(rule, name, what + ': the index is computed from the loop-carried blocker set', False, found=show(bl))
+        return
+    first, clo = src[2]
+    try:
+        init = ev(dict(first[4])['0'], {}) if first[0] == 'agg' and first[3] == 'Some' else None
+        init = init if isinstance(init, int) else None
+    except Unevaluable:
+        init = None
+    if init is None and first[0] == 'agg' and first[3] == 'Some':
+        try:
+            init = ev(field(dict(first[4])['0'], '0'), {})
+        except Unevaluable:
+            init = None
+    ctx.ob(rule, name, what + ': enumeration starts from the empty blocker set', init == 0, found=show(first), expected='successors(Some(Bitboard::EMPTY), ..)')
+    H = head[2]
+    through = [o for o in outs if any(e[0] == 'loop_head' and e[2] == H for e in o.events)]
+    body_ok, shape_ok = True, True
+    for o in through:
+        if o.kind == 'abort':
+            continue
+        pos = max(i for i, e in enumerate(o.events) if e[0] == 'loop_head' and e[2] == H)
+        evs = o.events[pos:]
+        inside = [c for c in o.conds[head[4]:]]
+        nd = [c for c in inside if c[0] == ('discr', nxt)]
+        # the only decision inside the loop is whether the sequence has ended: no break, no skipped element
+        # (a path may also leave from inside the body with the failure value of a fallible builder: the collision test of the generator)
+        shape_ok = shape_ok and len(nd) == 1 and ((o.kind == 'backedge' and nd[0][1] == 1) or (o.kind == 'return' and nd[0][1] == 0 and len(inside) == 1)
+                                                  or (o.kind == 'return' and nd[0][1] == 1 and is_fail(o.value)))
+        if o.kind == 'backedge':
+            val = [e for e in evs if e[0] == 'call' and e[1] == val_fn]
+            body_ok = body_ok and len(val) == 1 and any(x == bl or _contains(x, bl) for x in val[0][2])
+    ctx.ob(rule, name, what + ': each iteration computes the attack set and the slot from the same blocker set', body_ok)
+    ctx.ob(rule, name, what + ': the loop ends exactly when the enumeration returns to the empty set', shape_ok and any(o.kind == 'backedge' for o in through),
+           found=[[show_cond(c) for c in o.conds[head[4]:]] for o in through if o.kind != 'abort'][:3], expected='the body runs for every element the sequence yields')
+    # the step closure: value / conditions over its argument and what it captured
+    cname = clo[2]
+    ctx.touch(cname)
+    couts = [o for o in Engine(facts).run(cname) if o.kind != 'abort']
+    ups = dict(clo[4])
+    mask_ok = len(ups) == 1 and all(x[0] == 'fld' and _contains(x, entry) and 'mask' in show(x) for x in ups.values())
+    ctx.ob(rule, name, what + ': the update walks the mask of the entry that is indexed', mask_ok, found=[show(x) for x in ups.values()], expected='<entry>.mask')
+    if not mask_ok or not couts or not shape_ok:
+        return
+
+    def env_for(t, b, m):
+        env = {}
+        for s_ in subterms(t):
+            if s_[0] == 'fld' and str(s_[2]).startswith('upvar'):
+                env[s_] = m
+            elif s_ in (('fld', ('der', ('p', 2)), '0'), ('der', ('p', 2))):
+                env[s_] = b
+        return env
+
+    def step(b, m):
+        """next element or None (sequence ends); raises Unevaluable"""
+        hits = []
+        for o in couts:
+            good = True
+            for a, v in o.conds:
+                x = ev(a, env_for(a, b, m))
+                if isinstance(v, tuple) and v[0] == 'not':
+                    good = good and x not in v[1]
+                else:
+                    good = good and x == (int(v) if not isinstance(v, tuple) else v)
+            if good:
+                hits.append(o)
+        if len(hits) != 1 or hits[0].value is None or hits[0].value[0] != 'agg':
+            raise Unevaluable(('step', len(hits)))
+        v = hits[0].value
+        if v[3] == 'None':
+            return None
+        inner = dict(v[4])['0']
+        inner = dict(inner[4])['0'] if inner[0] == 'agg' else inner
+        return ev(inner, env_for(inner, b, m))
+    missing_total, dup_total, cases, witness = 0, 0, 0, None
+    try:
+        for sqi, m in masks:
+            want = 1 << bin(m).count('1')
+            b, seen, steps = init, set(), 0
+            while b is not None and steps <= want + 1:
+                steps += 1
+                if b in seen:
+                    dup_total += 1
+                seen.add(b)
+                b = step(b, m)
+            cases += len(seen)
+            miss = want - len({x for x in seen if x & ~m == 0})
+            if miss and witness is None:
+                lost = sorted(set(subsets(m)) - seen)[:2]
+                witness = {'square': sq_name(1 << sqi), 'mask': hex(m), 'subsets never written': [hex(x) for x in lost], 'written': len(seen), 'of': want}
+            missing_total += miss
+            dup_total += max(0, steps - len(seen))
+    except Unevaluable as e:
+        ctx.ob(rule, name, what + ': loop conditions are functions of blocker set and mask', False, found=str(e.args[0])[:120])
+        return
+    ctx.ob(rule, name, what + ': the body runs once for every subset of the mask',
+           missing_total == 0 and dup_total == 0, found=witness or {'missing': missing_total, 'repeated': dup_total, 'subsets visited': cases, 'masks': len(masks), 'form': 'successors'},
+           expected='2^popcount(mask) distinct blocker sets per square',
+           why='a subset that is never written leaves its slot empty: the slider is reported to attack nothing in that configuration')
+    return cases
+
+
 def subset_walk(ctx, rule, name, opaque, val_fn, masks, what):
     """Decide that the fill loop of `name` performs one lookup-table write for EVERY subset of the mask.
 
@@ -923,6 +1042,8 @@ def subset_walk(ctx, rule, name, opaque, val_fn, masks, what):
         return
     bl = next(iter(bls))
     entry = next(iter(ents))
+    if bl[0] != 'lv' and is_iteration_element(bl) and strip_refs_t(bl)[0] == 'fld' and 'Successors' in strip_refs_t(bl)[1][1]:
+        return successors_walk(ctx, rule, name, what, outs, bl, entry, val_fn, masks)
     if bl[0] != 'lv':
         ctx.ob(rule, name, what + ': the index is computed from the loop-carried blocker set', False, found=show(bl))
         return
